@@ -432,6 +432,11 @@ pub proof fn lemma_patch_prefix(a: PagedWriter, s3: PagedWriter, s4: PagedWriter
 {
     lemma_patch_seq(a.stream(), a.cursor(), s3.stream(), s5.stream(), x, y, x2);
 }
+/// the logical cursor fits comfortably into u64 (device sizes fit off_t)
+pub proof fn lemma_cursor_bound(w: PagedWriter)
+    requires w.wf()
+    ensures 0 <= w.cursor() <= 0x7fff_ffff_ffff_ffff + 1020
+{}
 /// physical <-> logical translation used by seeks to reported positions
 pub proof fn lemma_phys_roundtrip(c: int)
     requires c >= 0
